@@ -62,13 +62,17 @@ def regenerate_src():
             OU.run()
             from . import srctmpl
             tmpl_text, n_tmpl, n_tmpl_failed = srctmpl.range_templates(OT)
-            otext = ("/- GENERATED on every run by vlib/srcobj.py from the typed clang AST of /repo/src/encoder.cpp, packet.cpp, decoder.cpp, status.cpp, device_status.cpp, interface_status.cpp — do not edit. -/\n"
+            # packet value mode: PayloadType / Payload / Packet as values (constructors, create, copy / move / swap / ==, getters)
+            PV = srcobj.PvTranslator(T, flat=["ASAM::CMP::PayloadType"], records=[("ASAM::CMP::Payload", "Payload"), ("ASAM::CMP::Packet", "PacketV")])
+            PV.run()
+            otext = ("/- GENERATED on every run by vlib/srcobj.py from the typed clang AST of /repo/src/encoder.cpp, packet.cpp, payload.cpp (+ payload_type.h and the payload classes' constructors), decoder.cpp, status.cpp, device_status.cpp, interface_status.cpp — do not edit. -/\n"
                      "import AsamCmp.GeneratedSrc\nimport AsamCmp.Src.Obj\nset_option linter.unusedVariables false\nnamespace AsamCmp.SrcGen\n"
-                     "open AsamCmp AsamCmp.Src\n\n" + OT.emit() + "\n" + tmpl_text + "\n" + OP.emit() + "\n" + OS.emit() + "\n" + OD.emit() + "\n" + OE.emit() + "\n" + OH.emit() + "\n" + OI.emit() + "\n" + OV.emit() + "\n" + OU.emit() + "\nend AsamCmp.SrcGen\n")
+                     "open AsamCmp AsamCmp.Src\n\n" + OT.emit() + "\n" + tmpl_text + "\n" + OP.emit() + "\n" + OS.emit() + "\n" + OD.emit() + "\n" + OE.emit() + "\n" + OH.emit() + "\n" + OI.emit() + "\n" + OV.emit() + "\n" + OU.emit() + "\n" + PV.emit() + "\nend AsamCmp.SrcGen\n")
             note += "; GeneratedSrcObj.lean: %d Encoder, %d Packet, %d Decoder::SegmentedPacket, %d Decoder methods translated as state transformers (%d / %d / %d / %d not)" % (
                 len(OT.order), len(OP.order), len(OS.order), len(OD.order), len(OT.failed), len(OP.failed), len(OS.failed), len(OD.failed))
             note += "; %d InterfaceStatus / %d DeviceStatus / %d Status methods" % (len(OI.order), len(OV.order), len(OU.order))
             note += "; %d Encoder member templates over an iterator range (%d not)" % (n_tmpl, n_tmpl_failed)
+            note += "; packet value mode: %d functions of PayloadType / Payload / Packet (%d not)" % (len(PV.order), len(PV.failed))
         except Exception as e:  # noqa: any failure of the object translator on the current source => stub file => broken obligations
             otext = "/- GENERATED: the object translator could not run: %s -/\nimport AsamCmp.Src.Obj\nnamespace AsamCmp.SrcGen\nend AsamCmp.SrcGen\n" % str(e).replace("-/", "- /")[:400]
             note += "; GeneratedSrcObj.lean: object translator failed (%s)" % str(e)[:120]
